@@ -130,8 +130,10 @@ ZQuoT(a, b) == Z(a.s * b.s, DivMod(a.m, b.m).q)       \* b # 0; truncated toward
 ZGcd(a, b)  == Z(1, Gcd(a.m, b.m))
 ZCmp(a, b)  == ZSign(ZAdd(a, ZNeg(b)))
 
-RECURSIVE TwoTo(_)
-TwoTo(k) == IF k = 0 THEN <<1>> ELSE MulSmall(TwoTo(k - 1), 2)
+RECURSIVE TwoTo(_)            \* 2^k, thirteen doublings per limb pass (2^13 < B)
+TwoTo(k) == IF k = 0 THEN <<1>>
+            ELSE IF k < 13 THEN MulSmall(TwoTo(k - 1), 2)
+            ELSE MulSmall(TwoTo(k - 13), 8192)
 TwoTo63  == <<5808, 5477, 368, 3372, 922>>            \* 9223372036854775808 (checked in MCBigNat)
 ZFits64(z) == IF z.s >= 0 THEN Cmp(z.m, TwoTo63) < 0 ELSE Cmp(z.m, TwoTo63) <= 0
 =============================================================================
